@@ -23,7 +23,8 @@ MANIFEST = dict(
         "the unrepaired source: finding F1); CVFolds built from such starts have validation batch sets that are consecutive ranges, pairwise disjoint "
         "and covering all batches; the validation parts concatenated are exactly the reorganised dataset; training indices are exactly the complement, "
         "and validation + training elements are a permutation of the dataset; equal-size fold sizes floor(n/k)(+1) sum to n, differ by at most one and "
-        "equal what round-robin dealing delivers; a class dealt round-robin gives any two folds counts that differ by at most one; for the common tail "
+        "equal what round-robin dealing delivers; for every admissible (class-sorted) dealing order of createCVSameSizeBalanced any two folds receive counts of "
+        "any class that differ by at most one; for the common tail "
         "of createCVIndexed / createCVFullyIndexed / createCVIID / createCVSameSizeBalanced (model `regroup`): the reorganised dataset is well-formed, "
         "keeps its shapes (repaired code, finding F11), is the picked elements grouped by requested fold (a permutation: each exactly once with its "
         "label), and folds.validation(p) holds exactly the elements assigned to fold p; createCVIndexed yields a permutation of the original pairs; "
@@ -32,8 +33,8 @@ MANIFEST = dict(
         "RNG draws of the real code are observed and checked against the model's relation, on unsigned / RealVector / CompressedRealVector inputs under "
         "ASan/UBSan (thorough tier exhaustive over (n, k, batch size) for n <= 30), plus an independent in-harness oracle for disjointness, cover, "
         "complement, pairing, fold-size and class balance, requested fold, recreation indices and shape."),
-  note=TRUST + "checked by correspondence + oracle only (no theorem): that the class-wise dealing order of createCVSameSizeBalanced really is class-contiguous "
-       "(validSeq is checked on the observed order), createCVBatch's chunking, and that the element-dealing loops equal their net effect `regroup`; the RNG "
+  note=TRUST + "checked by correspondence + oracle only (no theorem): that the dealing order the real createCVSameSizeBalanced draws is class-sorted (validSeq is "
+       "checked on every observed order) and that the element-dealing loops equal their net effect `regroup`; the RNG "
        "itself is not modelled. Findings F1, F11, F12 (findings_proposed/C12.md) make the check print VIOLATION on the unrepaired tree.",
   technique="Lean 4 proofs over the regenerated batch arithmetic, the fold index sets and the regrouping + differential correspondence with observed RNG draws (ASan/UBSan)",
   design="§6 C12")
